@@ -134,7 +134,7 @@ impl FieldContext {
 //@|    ensures *r == self.config,
 //@ END
 
-//@ EXTRACT-FN file=src/generators/base/template_context.rs in="trait NamingContext" fn=apply_naming_convention props=C06,C04
+//@ EXTRACT-FN file=src/generators/base/template_context.rs in="trait NamingContext" fn=apply_naming_convention props=C06,C04,C15
 //@ RETURNS r
 //@ CONTRACT
 //@|    ensures r@ == rule_field(convention, field_name@),
@@ -143,7 +143,7 @@ impl FieldContext {
 //@|    ensures r@ == lower_first_spec(pascal@),
 //@ END
 
-//@ EXTRACT-FN file=src/generators/base/template_context.rs in="trait NamingContext" fn=compute_field_name props=C06
+//@ EXTRACT-FN file=src/generators/base/template_context.rs in="trait NamingContext" fn=compute_field_name props=C06,C15
 //@ RETURNS r
 //@ CONTRACT
 //@|    ensures
@@ -152,7 +152,7 @@ impl FieldContext {
 //@|        field_rename is None && struct_rename_all is None ==> r@ == rule_field(default_rule(self.config.default_field_case@), field_name@),
 //@ END
 
-//@ EXTRACT-FN file=src/generators/base/template_context.rs in="trait NamingContext" fn=compute_variant_name props=C06
+//@ EXTRACT-FN file=src/generators/base/template_context.rs in="trait NamingContext" fn=compute_variant_name props=C06,C15
 //@ RETURNS r
 //@ CONTRACT
 //@|    ensures
@@ -161,7 +161,7 @@ impl FieldContext {
 //@|        variant_rename is None && enum_rename_all is None ==> r@ == rule_field(default_rule(self.config.default_field_case@), variant_name@),
 //@ END
 
-//@ EXTRACT-FN file=src/generators/base/template_context.rs in="trait NamingContext" fn=compute_parameter_name props=C04
+//@ EXTRACT-FN file=src/generators/base/template_context.rs in="trait NamingContext" fn=compute_parameter_name props=C04,C15
 //@ RETURNS r
 //@ CONTRACT
 //@|    ensures
@@ -170,13 +170,13 @@ impl FieldContext {
 //@|        param_rename is None && command_rename_all is None ==> r@ == rule_field(default_rule(self.config.default_parameter_case@), param_name@),
 //@ END
 
-//@ EXTRACT-FN file=src/generators/base/template_context.rs in="trait NamingContext" fn=event_name_to_function props=C12,C01
+//@ EXTRACT-FN file=src/generators/base/template_context.rs in="trait NamingContext" fn=event_name_to_function props=C12,C01,C15
 //@ RETURNS r
 //@ CONTRACT
 //@|    ensures r@ == "on"@ + pascal_spec(event_norm(event_name@)),
 //@ END
 
-//@ EXTRACT-FN file=src/generators/base/template_context.rs in="trait NamingContext" fn=compute_function_name props=C01
+//@ EXTRACT-FN file=src/generators/base/template_context.rs in="trait NamingContext" fn=compute_function_name props=C01,C15
 //@ RETURNS r
 //@ CONTRACT
 //@|    requires rust_ident(name@),
@@ -185,7 +185,7 @@ impl FieldContext {
 //@|        !js_reserved(r@),
 //@ END
 
-//@ EXTRACT-FN file=src/generators/base/template_context.rs in="trait NamingContext" fn=compute_type_name props=C01
+//@ EXTRACT-FN file=src/generators/base/template_context.rs in="trait NamingContext" fn=compute_type_name props=C01,C15
 //@ RETURNS r
 //@ CONTRACT
 //@|    ensures r@ == pascal_spec(name@),
